@@ -114,8 +114,28 @@ def size(ast):
 _PREC = {"or": 1, "and": 2, "not": 3, "tag": 4, "glob": 4, "true": 4}
 
 
+def escape_operand(name):
+    """Operand text as it has to be written in a v2 expression: backslash, parentheses and
+    whitespace inside a tag name / pattern are written with a preceding backslash."""
+    out = []
+    for ch in name:
+        if ch in u"\\()" or ch.isspace():
+            out.append(u"\\")
+        out.append(ch)
+    return u"".join(out)
+
+
+def needs_escape(name):
+    return escape_operand(name) != name
+
+
 def render_v2(ast, variant=0):
-    """variant bits: 1 -> '@' prefixes, 2 -> redundant parentheses, 4 -> extra spaces."""
+    """variant bits: 1 -> '@' prefixes, 2 -> redundant parentheses, 4 -> extra spaces,
+    8 -> leading and trailing blanks, 16 -> every operand and every sub-expression parenthesised."""
+    if variant & 8:
+        return u" " + render_v2(ast, variant & ~8) + u"  "
+    if variant & 16:
+        return _render_v2_full(ast, variant)
     at = u"@" if variant & 1 else u""
     redundant = bool(variant & 2)
     sp = u"  " if variant & 4 else u" "
@@ -125,7 +145,7 @@ def render_v2(ast, variant=0):
         if op == "true":
             return u""
         if op in ("tag", "glob"):
-            text = at + x[1]
+            text = at + escape_operand(x[1])
             if redundant and parent_prec == 0:
                 return u"(" + sp.strip(" ")[:0] + text + u")"
             return text
@@ -140,6 +160,36 @@ def render_v2(ast, variant=0):
             return u"(" + (u" " if variant & 4 else u"") + text + (u" " if variant & 4 else u"") + u")"
         return text
     return r(ast, 0)
+
+
+def _render_v2_full(ast, variant):
+    at = u"@" if variant & 1 else u""
+    sp = u"  " if variant & 4 else u" "
+    pad = u" " if variant & 4 else u""
+
+    def wrap(text):
+        return u"(" + pad + text + pad + u")"
+
+    def r(x):
+        op = x[0]
+        if op == "true":
+            return u""
+        if op in ("tag", "glob"):
+            return wrap(at + escape_operand(x[1]))
+        if op == "not":
+            return wrap(u"not" + sp + r(x[1]))
+        return wrap((sp + op + sp).join(r(y) for y in x[1:]))
+    return r(ast)
+
+
+def render_v2_terms(ast, variant=0):
+    """List-of-terms form (a sequence of strings which behave ANDs together): the operands of a
+    top-level 'and' become one term each, anything else is a single term, 'true' is no term."""
+    if ast[0] == "true":
+        return []
+    if ast[0] == "and":
+        return [render_v2(x, variant) for x in ast[1:]]
+    return [render_v2(ast, variant)]
 
 
 # ---------------------------------------------------------------------------
